@@ -24,8 +24,10 @@ RULE = ("configs drawn from test x estimator/bet x N in {n, n+1, 2n, 10n, inf} x
         "estim(x)/bet(x) and the tests built on them (streams c13:*): long runs of 0 / of u in populations of "
         "size n..n+2 (the fixed alternative becomes impossible, the null mean leaves [0,u]), margins "
         "u = 1 + 2^-a down to a = 40, error rates 0..1/2, eta within 2^-30 of t or u, t within 2^-50 of u, "
-        "c in [2^-30,10], d in [2^-20,10^6], f in [0,100], minsd in [2^-40,10], aGRAPA c_0 in [0,1], "
-        "c_max in [c_0,1], growth in [0,10^6], bets in [0,1/u]; non-trivial = "
+        "c in [2^-30,10], d in [2^-20,10^6], f in [0,100], minsd in [2^-40,10] and tiny (1e-160, 1e-170, 1e-300, the "
+        "smallest normal double; f = 0 or f/minsd < 1e298) on samples starting with a run of identical draws, "
+        "aGRAPA c_0 in [0,1], c_max in [c_0,1], growth in [0,10^6], fixed bets in [0,1/u], aGRAPA initial bets also far "
+        "above 1/t and negative (5/2 .. 10^6, -1/2, -3); non-trivial = "
         "status ok, length >= 2 and the history is not constantly 1; distinct = distinct canonical input")
 EXHAUSTIVE = {"quick": False, "thorough": False}
 
@@ -154,6 +156,10 @@ def fragile(case, ir, mr):
         key = "hist" if case["op"] == "test" else ("v" if case["op"] in ("estim", "bet") else None)
         if key and len(ir.get(key, [])) == len(mr.get(key, [])):
             return True
+    kw_ = case["init"]["kw"]
+    if case["init"].get("estim") == "shrink_trunc" and kw_.get("minsd") is not None and F(kw_["minsd"]) > 0 \
+            and F(kw_.get("f") or 0) / F(kw_["minsd"]) > F(10) ** 300:
+        return True                          # f/minsd overflows in floats (not modelled)
     if case["op"] == "bet" and fragile_bet(case):
         return True
     if case["op"] == "test" and fragile_cancel(case, mr):
@@ -333,6 +339,17 @@ def bump(x, u):
     return x
 
 
+TINY_MINSD = [F(1, 10 ** 170), F(sys.float_info.min), F(1, 10 ** 160), F(1, 10 ** 300)]
+WILD_LAM = [F(5, 2), F(3), F(10), F(100), F(10 ** 6), -F(1, 2), -F(3), F(21, 10)]
+
+
+def tiny_minsd_f(rng, minsd):
+    """a shrinkage weight f >= 0 for a tiny positive minsd with f/minsd (and u*f/minsd, u <= 2) far below the float
+    range's end: `minsd` is only documented as "a positive float"; f = 0 is the default"""
+    opts = [F(0), F(0), F(0)] + [f for f in (F(1, 10 ** 10), pow2(20), F(1, 100), F(1)) if f / minsd < F(10) ** 298]
+    return rng.choice(opts)
+
+
 def gen_kw(rng, test, estim, bet, u, t):
     kw = {}
     if test in ("alpha_mart", "wald_sprt"):
@@ -352,6 +369,9 @@ def gen_kw(rng, test, estim, bet, u, t):
             kw["f"] = rng.choice([F(0), F(1, 100), F(1, 2), F(2)])
         if rng.chance(0.4):
             kw["minsd"] = rng.choice([F(1, 10 ** 6), F(1, 100), F(1, 4)])
+        if rng.chance(0.15):
+            kw["minsd"] = rng.choice(TINY_MINSD)
+            kw["f"] = tiny_minsd_f(rng, kw["minsd"])
     if estim == "optimal_comparison" and rng.chance(0.6):
         kw["rate_error_2"] = rng.choice([F(0), F(1, 10 ** 4), F(1, 1000), F(1, 100), F(1, 10), F(1, 2)])
     if test == "betting_mart":
@@ -361,6 +381,8 @@ def gen_kw(rng, test, estim, bet, u, t):
         if bet == "agrapa":
             if rng.chance(0.6):
                 kw["lam"] = rng.choice([F(0), F(1, 4), F(1, 2), F(1)]) / u
+            if rng.chance(0.25):
+                kw["lam"] = rng.choice(WILD_LAM)        # aGRAPA clips any initial bet to [0, c/mu_1]
             if rng.chance(0.5):
                 kw["c_grapa_0"] = rng.choice([F(1, 2), F(3, 4), F(9, 10)])
             if rng.chance(0.5):
@@ -562,6 +584,17 @@ def gen_range_case(rng, tier, op):
                 kw["f"] = rng.choice([F(0), pow2(20), F(1, 100), F(1), F(100)])
             if rng.chance(0.7):
                 kw["minsd"] = rng.choice([pow2(40), F(1, 10 ** 6), F(1, 100), F(1, 4), F(10)])
+            if rng.chance(0.2):
+                # a tiny positive threshold (squares underflow) on a sample of >= 3 draws that starts with a run of
+                # identical values: the running sd is exactly 0 and only `minsd` keeps the weight of u finite
+                kw["minsd"] = rng.choice(TINY_MINSD)
+                kw["f"] = tiny_minsd_f(rng, kw["minsd"])
+                n = max(n, rng.choice([3, 4, 6, nmax]))
+                k = rng.randint(2, n)
+                v0 = rng.choice([F(0), u, u / 2, t, grid_val(rng, u)])
+                x = [v0] * k + [grid_val(rng, u) for _ in range(n - k)]
+                N = rng.choice([None, n, n + 1, 2 * n, 10 * n])
+                name = "flat-start"
         if estim == "optimal_comparison" and rng.chance(0.85):
             kw["rate_error_2"] = range_p2(rng, u)
     else:
@@ -572,6 +605,9 @@ def gen_range_case(rng, tier, op):
         else:
             if rng.chance(0.7):
                 kw["lam"] = rng.choice([F(0), F(1, 2)] if mild else [F(0), pow2(30), F(1, 2), F(1)]) / u
+            if rng.chance(0.3):
+                # an aggressive / negative initial bet: like every other bet it must come out clipped to [0, c/mu_1]
+                kw["lam"] = rng.choice(WILD_LAM)
             c0 = None
             if rng.chance(0.7) or mild:
                 c0s = [F(1, 2), F(3, 4), F(9, 10)] if mild else [F(0), pow2(10), F(1, 2), F(3, 4), F(9, 10), 1 - EPS, F(1)]
@@ -922,8 +958,8 @@ def oracle_c13(case, ir):
         if ir.get("st") != "ok":
             return {"what": f"bet raised {ir.get('err')}: {ir.get('msg')}"}
         b = init.get("bet") or "fixed_bet"
-        if "lam" in kw and not (0 <= kw["lam"] <= 1 / u):
-            return None
+        if b == "fixed_bet" and not (0 <= kw.get("lam", F(1, 2)) <= 1 / u):
+            return None      # a FIXED bet outside [0, 1/u] is outside the documented range; aGRAPA clips ANY initial bet
         for j, (l, m) in enumerate(zip(ir["v"], mu)):
             if not (0 < m <= u):
                 continue
